@@ -244,7 +244,8 @@ def acquire_post():
             ('only_a_failing_close_propagates', {'C12'}, exc_only_from_close),
         ],
         'KeyboardInterrupt': [
-            ('interrupted_attempt_keeps_nothing', {'C12', 'C02'}, exc_leaves_no_residue),
+            # C13 too: a survivor whose wait behind a (dying) holder is cut short must be able to try again
+            ('interrupted_attempt_keeps_nothing', {'C12', 'C02', 'C13'}, exc_leaves_no_residue),
             ('only_an_interrupt_of_the_wait_propagates', {'C12'},
              lambda E, a, old, exc: z3.BoolVal(exc.info.get('origin') == 'interrupt')),
         ],
@@ -604,7 +605,9 @@ def t_acquire_ctx(E):
     _ctx_engine(E)
     f = method(E, 'acquire_ctx')
     E.cur_func = f.qualname
-    E.props_default = frozenset({'C12', 'C02'})
+    # C13 too: "mutual exclusion among the survivors continues to hold" -- a survivor that fails to get the lock through
+    # this form must not release what another survivor holds
+    E.props_default = frozenset({'C12', 'C02', 'C13'})
     st = {}
 
     def on_yield(E, fr, v, node):
@@ -627,6 +630,16 @@ def t_acquire_ctx(E):
         return NONE
     E.hooks[(f.qualname, 'yield')] = on_yield
 
+    class _Recording:
+        """acquire() by contract, remembering what it was called with"""
+        def apply(self, E_, args, kwargs, node=None):
+            names = ['self', 'blocking', 'timeout', 'poll_interval']
+            got = dict(zip(names, args))
+            got.update(kwargs)
+            st.setdefault('acquire_calls', []).append(got)
+            return SPEC_ACQUIRE.apply(E_, args, kwargs, node)
+    E.specs[MOD + '.BaseFileLock.acquire'] = _Recording()
+
     def body():
         st.clear()
         o = mk_self(E)
@@ -648,6 +661,12 @@ def t_acquire_ctx(E):
             exc = pe.exc
         v1 = view(E, o)
         E.cover('%s/exit[%s]' % (f.qualname, kind))
+        calls = st.get('acquire_calls', [])
+        E.oblige('%s/call.acquires_once_with_the_callers_blocking_timeout_and_poll_interval' % f.qualname,
+                 z3.BoolVal(len(calls) == 1 and calls[0].get('blocking') is blocking and
+                            calls[0].get('timeout') is timeout and calls[0].get('poll_interval') is poll),
+                 props={'C12'}, detail='acquire_ctx(blocking, timeout, poll_interval) is acquire(blocking, timeout, '
+                                       'poll_interval) as a context manager: same waiting, same polling')
         if st.get('yielded'):
             # released exactly once on every exit of the body: back to the depth before the with
             E.oblige('%s/ensures.released_exactly_once_after_body[%s]' % (f.qualname, kind),
@@ -777,7 +796,7 @@ TASKS = {
     'filelock.release': (t_release, {'C02', 'C12', 'C13'}),
     'filelock.__enter__': (t_enter, {'C02', 'C12'}),
     'filelock.__exit__': (t_exit, {'C02', 'C12'}),
-    'filelock.acquire_ctx': (t_acquire_ctx, {'C02', 'C12'}),
+    'filelock.acquire_ctx': (t_acquire_ctx, {'C02', 'C12', 'C13'}),
     'filelock.__del__': (t_del, {'C12', 'C02', 'C13'}),
     'filelock.lemmas': (t_lemmas, {'C02', 'C13'}),
 }
